@@ -26,7 +26,7 @@ for pid in sorted(T["properties"]):
 hooks = T["hooks"]
 m = {
     "version": 1,
-    "setup_cmd": f"cd /verif/harness && {GOENV} go build -tags verif ./... && {GOENV} go vet -tags verif ./internal/...",
+    "setup_cmd": "bin/setup",
     "hooks": hooks,
     "engines": [{"name": "go-harness", "path": "/verif/harness", "serves_properties": [c["property_id"] for c in checks],
                  "kind_free_text": "Go programs that execute the real packages of /repo (module replace) under generated/hostile/stress workloads with monitors: reference models, porcupine history checking, goroutine-snapshot dead-lock rules, Go race detector; driver bin/check"}],
